@@ -1,5 +1,46 @@
 """bounded clauses of C04 on fitted objects (see rtc/battery.py)"""
 from rtc import battery
 ALL = ['Discretizer', 'QuantitativeDiscretizer', 'QualitativeDiscretizer', 'BinaryCarver', 'ContinuousCarver', 'MulticlassCarver', 'OrdinalDiscretizer', 'CategoricalDiscretizer', 'ContinuousDiscretizer']
+from rtc import zoo
+
+
+def coded(seed):
+    """features stored as small integer / float codes (ordinal with a pre-grouped ranking on the string forms, and plain categorical), float and str output: every
+    training row gets the label of the group that holds (the string form of) its value -- for 'float' the rank of that group in the fitted order"""
+    import random
+    import numpy as np, pandas as pd
+    from AutoCarver.discretizers import GroupedList
+    from AutoCarver.carvers.binary_carver import BinaryCarver
+    from rtc.battery_C03 import coded_ordinal
+    recs = []
+    # (a) the ordinal cases of C03, judged on the mapping
+    for clause, ok, wit, msg in coded_ordinal(seed):
+        if clause.endswith('ordinal_float_output_monotone_in_rank'): recs.append(('C04:transform#post.label_of_the_group_containing_the_value', ok, wit, msg))
+    # (b) a categorical feature with codes 0..k-1 whose target rate DEcreases with the code (ranks and codes run against each other), float and str output
+    rng = random.Random(seed); k = rng.choice([4, 5, 6]); n = rng.choice([200, 300]); col = [rng.randrange(k) for _ in range(n)]
+    y = pd.Series([int(rng.random() < 0.85 - 0.15 * c) for c in col]); X = pd.DataFrame({'c': pd.Series(col, dtype=object if seed % 2 else 'int64')})
+    for od in ('float', 'str'):
+        wit = dict(which='coded_categorical', column=col, target=y.tolist(), output_dtype=od, stored_as=str(X['c'].dtype))
+        try:
+            o = BinaryCarver(sort_by='tschuprowt', min_freq=0.05, quantitative_features=[], qualitative_features=['c'], ordinal_features=[], max_n_mod=4, output_dtype=od, dropna=True, copy=True, verbose=False); o.fit(X, y)
+            out = o.transform(X)['c'].tolist()
+        except AssertionError: continue
+        except Exception as e:
+            recs.append(('C04:transform#post.training_rows_accepted', False, wit, 'coded categorical feature: %s: %s' % (type(e).__name__, str(e)[:150]))); continue
+        if 'c' not in o.features: continue
+        order = o.values_orders['c']; bad = []
+        for c, got in zip(col, out):
+            gi = [i for i, l in enumerate(order) if str(c) in [str(m) for m in order.content[l]]]
+            exp = (float(gi[0]) if od == 'float' else list(order)[gi[0]]) if gi else None
+            if exp is None or not (got == exp): bad.append((c, got, exp))
+        recs.append(('C04:transform#post.label_of_the_group_containing_the_value', not bad, wit, 'coded categorical feature, output %s: (code, output, label of its group) %r, fitted order %r' % (od, bad[:4], dict(order.content))))
+    return recs
+
+
 def run(ctx):
     battery.run_battery(ctx, {'C04'}, kinds=ALL)
+    n = 12 if ctx.tier == 'quick' else 120
+    ctx.bound('coded features', '%d ordinal / categorical features stored as small integer or float codes (pre-grouped rankings on the string forms, ranks running against the codes), float and str output' % n)
+    for recs in zoo.pmap(coded, [ctx.seed * 23 + i for i in range(n)]):
+        for clause, ok, wit, msg in recs:
+            if clause.startswith('C04:'): ctx.check(clause[4:], clause[4:].split('#')[0], ok, wit, msg)
